@@ -44,7 +44,7 @@ var c17Modes = []app.Mode{{Kind: "long"}, {Kind: "persist", Backend: "mem"}, {Ki
 var genRefused = rapid.Custom(func(t *rapid.T) string {
 	switch uniformN(t, 10, "refkind") {
 	case 0, 1:
-		return string(bytes.Repeat([]byte{"1a9+x"[uniformN(t, 5, "longfill")]}, rapid.SampledFrom([]int{256, 257, 300, 400, 1000}).Draw(t, "toolong")))
+		return string(bytes.Repeat([]byte{"1a9+x"[uniformN(t, 5, "longfill")]}, []int{256, 257, 300, 400, 1000, 256, 257, 300, 65535, 65536, 65537, 65700, 65791, 65792, 131072, 131200}[uniformN(t, 16, "toolong")]))
 	case 2:
 		// arbitrary bytes that do not start like an accepted input
 		first := rapid.SampledFrom([]byte{'!', ' ', '\n', '-', '#', '_', '.', '*', 0x00, 0xff, '{', '/', '@'}).Draw(t, "first")
